@@ -437,3 +437,38 @@ def _keeps_on(v: FuncView, test_call) -> Optional[bool]:
                 if lab and any(v.cfg.branch_dominated(tid, lab, v.cfg_id(c)) for c in adds):
                     return want
     return None
+
+
+def check_nodes_before_return(ctx, res: Result, dotted, rule="X-NODES"):
+    """A sub-hypergraph whose node set depends on a flag (`keep_isolated_nodes`): no path hands the extract back before
+    the flag was consulted (an early `return h` for an empty selection would drop the nodes the flag asks to keep)."""
+    v = ctx.view(dotted)
+    f = v.fi.short
+    params = {a.arg for a in v.fi.params} | {a.arg for a in v.fi.node.args.kwonlyargs}
+    found = 0
+    for c in walk_no_nested(v.fi.node):
+        if not (isinstance(c, ast.Call) and isinstance(c.func, ast.Attribute) and c.func.attr in ("add_nodes", "add_node") and isinstance(c.func.value, ast.Name)):
+            continue
+        h = c.func.value.id
+        flag_tests = []
+        for i_ in v.enclosing_all(c, (ast.If,)):
+            t = v.inline(i_.test)
+            names = {x.id for x in ast.walk(t) if isinstance(x, ast.Name)}
+            if names & params and any("isolated" in n_ or "keep" in n_ or "nodes" in n_ for n_ in names & params):
+                flag_tests.append(i_)
+        if not flag_tests:
+            continue
+        tids = {v.cfg.by_ast[id(i_.test)] for i_ in flag_tests if id(i_.test) in v.cfg.by_ast}
+        # the construction of the extract: returns of `h` after it
+        ctor = [d for d in walk_no_nested(v.fi.node) if isinstance(d, ast.Assign) and any(isinstance(t_, ast.Name) and t_.id == h for t_ in d.targets) and isinstance(d.value, ast.Call)]
+        for r in walk_no_nested(v.fi.node):
+            if isinstance(r, ast.Return) and isinstance(r.value, ast.Name) and r.value.id == h:
+                rid = v.cfg_id(r)
+                starts = [v.cfg_id(d) for d in ctor if v.cfg_id(d) is not None and v.cfg.reachable(v.cfg_id(d), rid)]
+                if not starts or not tids:
+                    continue
+                found += 1
+                early = v.cfg.reaches_without(v.cfg.entry, rid, tids)
+                res.add(rule, f, norm(r), "nodes-decided-before-return", "violation" if early else "ok", "the extract is handed back on a path that never consulted the keep-nodes flag (an early return for an empty selection): the nodes the flag asks to keep are missing, per-order matrices lose their rows" if early else "", loc(v.fi, r))
+    if not found:
+        res.ok(rule, f, "no flag-dependent node set", "nodes-decided-before-return", loc(v.fi, v.fi.node))
